@@ -118,6 +118,7 @@ type c17MaskDesc struct {
 	Ign   [][]string   `json:"ign"`
 	Rules []c17RuleSet `json:"rules"`
 	AF    string       `json:"af"`   // applied_field of the mask
+	HM    bool         `json:"hm"`   // the mask has a metric_name
 	DoIf  []c17Cond    `json:"doif"` // empty = no do_if; else one condition tree
 }
 
@@ -150,6 +151,8 @@ type c17Summary struct {
 	DoIfOrder         int            `json:"doif_order_runs"`        // executions of the family "do_if reads a field the plugin rewrites"
 	ManyMasks         int            `json:"many_masks_runs"`        // executions of the family "the matching mask sits behind K silent masks"
 	NumKeys           int            `json:"numeric_key_runs"`       // executions of the family "all-digit path elements over arrays / objects / nothing"
+	SeqRuns           int            `json:"sequence_runs"`          // executions inside 2-3 event sequences through one instance
+	RuleValRuns       int            `json:"rule_value_runs"`        // executions of the family "rule value lists of different lengths"
 	Stress            int            `json:"stress_runs"`            // executions of Do in the concurrent family
 	RuleStress        int            `json:"rule_stress_runs"`       // of them: masks with match_rules, every instance fed its own values
 	RuleStressOverlap int            `json:"rule_stress_overlapped"` // of them: Do started while another instance was inside Do
@@ -566,6 +569,8 @@ func TestVerifC17(t *testing.T) {
 	c17RunDoIfOrder(w, sum, replay)
 	c17RunManyMasks(w, sum, replay)
 	c17RunNumericKeys(w, sum, replay)
+	c17RunSequences(w, sum, replay)
+	c17RunRuleValues(w, sum, replay)
 	c17RunStress(w, sum, rng, thorough, replay)
 
 	w.closeCur()
@@ -940,7 +945,7 @@ func c17RunEvents(w *c17Writer, sum *c17Summary, rng *rand.Rand, thorough bool, 
 		for i := range p.config.Masks {
 			m := &p.config.Masks[i]
 			d := c17MaskDesc{HasRe: m.Re != "", G: append([]int{}, m.Groups...), MC: m.MaxCount,
-				Word: c17Ints([]byte(m.ReplaceWord)), Proc: [][]string{}, Ign: [][]string{}, AF: m.AppliedField,
+				Word: c17Ints([]byte(m.ReplaceWord)), Proc: [][]string{}, Ign: [][]string{}, AF: m.AppliedField, HM: m.MetricName != "",
 				DoIf: []c17Cond{}}
 			switch {
 			case m.CutValues:
@@ -1088,7 +1093,7 @@ func c17StressDescs(p0 *Plugin, sm []c17StressMask) []c17MaskDesc {
 	for i := range p0.config.Masks {
 		m := &p0.config.Masks[i]
 		d := c17MaskDesc{HasRe: m.Re != "", G: append([]int{}, m.Groups...), MC: m.MaxCount,
-			Word: c17Ints([]byte(m.ReplaceWord)), Proc: [][]string{}, Ign: [][]string{}, AF: m.AppliedField,
+			Word: c17Ints([]byte(m.ReplaceWord)), Proc: [][]string{}, Ign: [][]string{}, AF: m.AppliedField, HM: m.MetricName != "",
 			DoIf: sm[i].cond, Rules: c17RuleDesc(m.MatchRules)}
 		switch {
 		case m.CutValues:
@@ -1919,6 +1924,207 @@ func c17RunNumericKeys(w *c17Writer, sum *c17Summary, replay map[string]bool) {
 				}
 				sum.NumKeys++
 				w.put(&rec, info)
+			}
+		}
+	}
+}
+
+// c17EventRun runs one decoded event through p and writes the "E" record
+func c17EventRun(w *c17Writer, sum *c17Summary, p *Plugin, sm []c17StressMask, descs []c17MaskDesc, root *insaneJSON.Root,
+	before []c17FLeaf, im1 []int, info c17Info) (panicked bool) {
+	if before == nil {
+		before = c17StressBefore(p, sm, root)
+	}
+	if im1 == nil {
+		im1 = c17Seq(len(descs))
+	}
+	rec := c17Event{K: "E", GProc: [][]string{}, GIgn: [][]string{}, Masks: descs, AF: p.config.MaskAppliedField, IM: im1,
+		Before: before, After: []c17FLeaf{}, MMet: []int{}, PB: []int{}}
+	m0 := c17Met(p)
+	mm0 := make([]int, len(p.config.Masks))
+	for i := range mm0 {
+		mm0[i] = c17MaskMet(p, i)
+	}
+	pmsg, pan := c17Do(p, &pipeline.Event{Root: root})
+	if pan {
+		rec.Res, info.Pmsg = "panic", pmsg
+		rec.PC, rec.PB = c17PanicClass(pmsg)
+		sum.Panics++
+	} else {
+		rec.Res = "ok"
+		rec.After = c17Flatten(root.Node, []string{}, nil)
+		for li := range rec.After {
+			rec.After[li].MI = []c17MI{}
+		}
+		rec.Met = c17Met(p) - m0
+		for i := range mm0 {
+			rec.MMet = append(rec.MMet, c17MaskMet(p, i)-mm0[i])
+		}
+	}
+	w.put(&rec, info)
+	return pan
+}
+
+// ---------------------------------------------------------------- sequences of events through one instance
+
+// 2-3 masks x {applied_field set / unset} x {metric_name set / unset}; every sequence of 2 and 3 events out of
+// {only mask A matches, only mask B, both, none (, only C)} goes through ONE started instance; every event is an
+// ordinary "E" record judged on its own: the result for an event is a function of (configuration, event) alone
+// (specs/MaskSeq.tla).  Identical records (same configuration, event and outcome) are written once.
+func c17RunSequences(w *c17Writer, sum *c17Summary, replay map[string]bool) {
+	mAst, mRep, mCut := c17Mode{name: "mask0"}, c17Mode{name: "replace", word: "XY"}, c17Mode{name: "cut", cut: true}
+	mk := func(re string, g []int, md c17Mode) Mask {
+		return Mask{Re: re, Groups: g, MaxCount: md.mc, ReplaceWord: md.word, CutValues: md.cut}
+	}
+	base := []Mask{mk(`(a)`, []int{1}, mAst), mk(`(b)`, []int{1}, mRep), mk(`(c)`, []int{1}, mCut)}
+	docs := []string{
+		`{"m":"aa","o":{"v":"éa"}}`, // A only
+		`{"m":"bb","o":{"v":"b"}}`,  // B only
+		`{"m":"ab","o":{"v":"ba"}}`, // A and B
+		`{"m":"cc","o":{"v":"c"}}`,  // none of A, B (C only when there is a third mask)
+		`{"m":"ca","o":{"v":"é"}}`,  // A (and C)
+	}
+	type variant struct {
+		n      int
+		af, mn uint // bit i: mask i has applied_field / metric_name
+	}
+	var variants []variant
+	for af := uint(0); af < 4; af++ {
+		for mn := uint(0); mn < 4; mn++ {
+			variants = append(variants, variant{2, af, mn})
+		}
+	}
+	variants = append(variants, variant{3, 7, 0}, variant{3, 5, 2}, variant{3, 2, 5}, variant{3, 0, 7})
+	root := insaneJSON.Spawn()
+	defer insaneJSON.Release(root)
+	for vi, v := range variants {
+		conf := &Config{MaskAppliedField: "ap", MaskAppliedValue: "1"}
+		var sm []c17StressMask
+		for i := 0; i < v.n; i++ {
+			m := base[i]
+			if v.af&(1<<uint(i)) != 0 {
+				m.AppliedField, m.AppliedValue = "am"+strconv.Itoa(i), "1"
+			}
+			if v.mn&(1<<uint(i)) != 0 {
+				m.MetricName = "c17_mask_metric_" + strconv.Itoa(i)
+			}
+			conf.Masks = append(conf.Masks, m)
+			sm = append(sm, c17StressMask{mask: m, cond: []c17Cond{}})
+		}
+		sum.Configs++
+		nd := len(docs)
+		befores := make([][]c17FLeaf, nd) // the "before" half depends on (configuration, event) only
+		ims := make([][]int, nd)
+		var seqs [][]int
+		for a := 0; a < nd; a++ {
+			for b := 0; b < nd; b++ {
+				seqs = append(seqs, []int{a, b})
+				for c := 0; c < nd; c++ {
+					seqs = append(seqs, []int{a, b, c})
+				}
+			}
+		}
+		for si, seq := range seqs {
+			key := fmt.Sprintf("S|%d|%d", vi, si)
+			if replay != nil && !replay[key] {
+				continue
+			}
+			p, rej := c17Start(conf) // one instance for the whole sequence
+			if p == nil {
+				sum.Skipped++
+				sum.SkipWhy[rej]++
+				break
+			}
+			descs := c17StressDescs(p, sm)
+			for pos, di := range seq {
+				if err := root.DecodeString(docs[di]); err != nil {
+					panic(err)
+				}
+				info := c17Info{Key: key, Src: docs[di], Fam: "sequence",
+					Conf: fmt.Sprintf("%d masks, applied_field bits %b, metric_name bits %b; event %d of the sequence %v of events (indexes into: %v)", v.n, v.af, v.mn, pos+1, seq, docs)}
+				sum.SeqRuns++
+				if befores[di] == nil {
+					// the masks that match something in this event (at most two of them do, by construction)
+					var im []int
+					for i := range p.config.Masks {
+						for _, lf := range c17Flatten(root.Node, []string{}, nil) {
+							if lf.T != "o" && len(lf.V) > 0 {
+								vb := make([]byte, len(lf.V))
+								for k, x := range lf.V {
+									vb[k] = byte(x)
+								}
+								if p.config.Masks[i].Re_.Match(vb) {
+									im = append(im, i)
+									break
+								}
+							}
+						}
+					}
+					if len(im) == 0 {
+						im = []int{0}
+					}
+					befores[di] = c17BeforeIM(p, sm, root, im)
+					ims[di] = nil
+					for _, x := range im {
+						ims[di] = append(ims[di], x+1)
+					}
+				}
+				if c17EventRun(w, sum, p, sm, descs, root, befores[di], ims[di], info) {
+					break
+				}
+			}
+		}
+	}
+}
+
+// ---------------------------------------------------------------- match rules: value lists of different lengths
+
+// One mask guarded by one match rule: {prefix, suffix, contains} x case_insensitive x invert x value lists of 1, 2 and
+// 3 values of DIFFERENT byte lengths, over leaves that match only the shortest, only a longer one, several, none.  The
+// rule matches iff SOME value matches (specs/Mask.tla RuleHolds, MaskRuleMatch.tla).
+func c17RunRuleValues(w *c17Writer, sum *c17Summary, replay map[string]bool) {
+	lists := [][]string{{"ab"}, {"b", "aab"}, {"aB", "bAba", "é"}, {"abab", "ba", "a"}, {"BBa", "Ab"}}
+	docs := []string{
+		`{"v1":"AABb","v2":"aabb","v3":"bbaa","v4":"BBAAb","v5":"b","v6":"abab","v7":"ABAB","v8":"éab","v9":"ba","v10":"babA"}`,
+		`{"v1":"aab","v2":"AAB","v3":"bba","v4":"bAbab","v5":"ab","v6":"bab","v7":"Ab","v8":"abé","v9":"bbBAb","v10":"bbab"}`,
+	}
+	root := insaneJSON.Spawn()
+	defer insaneJSON.Release(root)
+	ci := -1
+	for _, mode := range []matchrule.Mode{matchrule.ModePrefix, matchrule.ModeSuffix, matchrule.ModeContains} {
+		for _, cins := range []bool{false, true} {
+			for _, inv := range []bool{false, true} {
+				for _, vals := range lists {
+					ci++
+					m := Mask{Re: `(b+)`, Groups: []int{1}, AppliedField: "am0", AppliedValue: "1", MetricName: "c17_mask_metric_0",
+						MatchRules: matchrule.RuleSets{{Cond: matchrule.CondAnd, Rules: []matchrule.Rule{
+							{Values: append([]string{}, vals...), Mode: mode, CaseInsensitive: cins, Invert: inv}}}}}
+					conf := &Config{MaskAppliedField: "ap", MaskAppliedValue: "1", Masks: []Mask{m}}
+					sm := []c17StressMask{{mask: m, cond: []c17Cond{}}}
+					sum.Configs++
+					p, rej := c17Start(conf)
+					if p == nil {
+						sum.Skipped++
+						sum.SkipWhy[rej]++
+						continue
+					}
+					descs := c17StressDescs(p, sm)
+					for di, doc := range docs {
+						key := fmt.Sprintf("V|%d|%d", ci, di)
+						if replay != nil && !replay[key] {
+							continue
+						}
+						if err := root.DecodeString(doc); err != nil {
+							panic(err)
+						}
+						info := c17Info{Key: key, Src: doc, Fam: "rule-values",
+							Conf: fmt.Sprintf("mode %d case_insensitive %v invert %v values %q", mode, cins, inv, vals)}
+						sum.RuleValRuns++
+						if c17EventRun(w, sum, p, sm, descs, root, nil, nil, info) {
+							p, _ = c17Start(conf)
+						}
+					}
+				}
 			}
 		}
 	}
